@@ -222,8 +222,8 @@ Proof.
   assert (Hno : forall i, ~ In i stk -> i <> o) by (intros i Hi ->; auto).
   split; [|split; [|split; [|split; [|split]]]]; auto.
   - split; [split|].
-    + apply WF_track; auto. apply I.
-    + rewrite (proj1 (track_misc c o j s Ho)). apply I.
+    + apply (WF_track p c o j s Ho Hlt Hor). apply I.
+    + unfold s1. rewrite (proj1 (track_misc c o j s Ho)). apply I.
     + intros i Hi. apply (L1_ext s s1 i (Hrl i) (Hsro i (Hno i Hi))). apply I; auto.
     + intros i Hm Hi. apply (MemoOKc_ext p s s1 i (Hst i) (Hca i) (Hrl i)); [|apply I; auto].
       intros x w _ _ Hc. rewrite Hst; auto.
@@ -244,7 +244,7 @@ Proof.
     + apply (track_nlen c o j s Ho).
     + auto.
     + intros i Hm Hi Hc. rewrite Hst, Hca, Hrl, (Hsro i (Hno i Hi)). auto.
-    + intros y Hy He. split; auto. apply Hsro. intros ->; congruence.
+    + intros y Hy He. split; [apply Hrl|]. apply Hsro. intros ->. apply He; reflexivity.
     + intros y Hy. rewrite Hca, Hst, Hsu. split; auto. split; auto using st_le_refl.
       destruct (Nat.eqb_spec y j); auto. lia.
     + intros i. specialize (Hrest i). intuition.
@@ -314,7 +314,7 @@ Proof.
     + apply (proj1 (log_read_misc c j v true true s)).
     + intros i. apply Hf.
     + intros i Hm Hi Hc. rewrite Hsto, Hca, Hsr, (Hrk i (Hno i Hi)). auto.
-    + intros y Hy He. split; auto. apply Hrk. intros ->; congruence.
+    + intros y Hy He. split; [|apply Hsr]. apply Hrk. intros ->. apply He; congruence.
     + intros y Hy. destruct (Hf y) as (_&->&->&_&->). split; auto. split; auto using st_le_refl.
     + intros i. destruct (log_read_other_fields c j v true true s i) as (_&_&_&_&_&_&_&_&_&?&?&?&?&?).
       intuition.
